@@ -310,3 +310,184 @@ def run(prog, chk):
                             chk.fail("R2.3", fn, "subshell-leaks-control-flow", "the Subshell arm returns %s: control flow (break/return/exit) escapes the subshell" % [repr(o)[:80] for o in srcs])
             if n == 0:
                 chk.fail("R2.3", fn, "subshell-ok-missing", "no Ok(..) return found in the Subshell arm")
+    loop_flow_origin_rule(prog, chk)
+    stage_confinement_rule(prog, chk)
+    bang_rule(prog, chk)
+    case_status_rule(prog, chk)
+
+
+WAIT_P = "brush_core::interp::wait_for_pipeline_processes_and_update_status"
+PIPE_EXEC = "<brush_parser::ast::Pipeline as brush_core::interp::Execute>::execute"
+
+
+def _normal_stores(b, d):
+    out = []
+    for bb, i, s in field_stores(b, "results::ExecutionResult", "next_control_flow"):
+        if s.rv.kind == 'agg' and s.rv.variant == "Normal":
+            out.append(bb)
+        else:
+            for o in rvalue_origins(b, d, s):
+                if o.kind == 'agg' and o.node.variant == "Normal":
+                    out.append(bb)
+    return out
+
+
+def stage_confinement_rule(prog, chk):
+    """R2.5: a pipeline stage that ran in its own subshell contributes only a status. In the function that collects the
+    stages' results, the result handed back has its control flow reset to Normal on the subshell edge of a current-shell
+    test (the single-command / lastpipe case keeps it). Without the reset `true | exit 4` ends the invoking script."""
+    chk.rule("R2.5", "pipeline stages run in a subshell hand back an exit status only: the collected result's next_control_flow is reset to Normal "
+                     "under a current-shell test inside the wait loop")
+    b = prog.impl_body(WAIT_P)
+    if not chk.anchor("R2.5", WAIT_P, b):
+        return
+    c = cfg_of(b)
+    d = defs_of(b)
+    loops = c.source_loops()
+    resets = [bb for bb in _normal_stores(b, d) if any(bb in blks for blks in loops.values())]
+    if not resets:
+        chk.fail("R2.5", WAIT_P, "stage-control-flow-not-confined",
+                 "the result of a completed pipeline stage is handed on with its control flow and nothing resets it for stages that ran in a subshell: "
+                 "`true | exit 4` terminates the invoking script, `true | return 7` returns from the enclosing function")
+        return
+    ok = False
+    for r in resets:
+        for bl in b.blocks:
+            t = bl.term
+            if t.kind != "switch" or bl.idx == r or not c.dominates(bl.idx, r):
+                continue
+            succs = set(c.succ[bl.idx])
+            on = [s for s in succs if r in c.reachable_from(s, avoid=[bl.idx])]
+            off = [s for s in succs if s not in on]
+            if on and off and any(bl.idx in blks and r in blks for blks in loops.values()):
+                og = origins(b, d, t.discr, through_ops=True)
+                if any(o.kind == 'call' for o in og) or any(o.field_path() for o in og):
+                    ok = True
+    if ok:
+        chk.ok("R2.5", "stage-result-confined", "reset to Normal inside the wait loop, on one edge of a test (the current-shell case keeps its control flow)", function=WAIT_P)
+    else:
+        chk.fail("R2.5", WAIT_P, "stage-reset-unconditional", "the reset of next_control_flow in the wait loop is not under a current-shell test: a single command "
+                 "`exit`/`return`/`break` would be swallowed too")
+
+
+def bang_rule(prog, chk):
+    """R2.6: `! cmd` inverts the status of cmd, but `! return N` / `! exit N` hand N on: the inversion store in Pipeline::execute is
+    control dependent on the bang flag and on a test of the result's control flow."""
+    chk.rule("R2.6", "Pipeline::execute: the exit-code inversion for `!` is under `self.bang` and under a test of the result's control flow "
+                     "(return/exit keep their status)")
+    b = prog.impl_body(PIPE_EXEC)
+    if not chk.anchor("R2.6", PIPE_EXEC, b):
+        return
+    c = cfg_of(b)
+    d = defs_of(b)
+    inv = []
+    for bb, i, s in field_stores(b, "results::ExecutionResult", "exit_code"):
+        og = rvalue_origins(b, d, s)
+        if any(o.kind == 'call' and "ExecutionExitCode" in (o.node.best_callee() or "") + (o.node.gen_args or "") + (o.node.self_ty or "") for o in og) or \
+                any(o.kind == 'const' for o in og):
+            inv.append((bb, s))
+    inv = [(bb, s) for bb, s in inv if any("bang" in o.field_path() for g in b.blocks if g.term.kind == "switch" and c.dominates(g.idx, bb)
+                                           for o in origins(b, d, g.term.discr, through_ops=True))]
+    if not inv:
+        chk.fail("R2.6", PIPE_EXEC, "inversion-store-missing", "no exit_code store under `self.bang` found in Pipeline::execute")
+        return
+    bb = inv[0][0]
+    flow_test = False
+    for g in b.blocks:
+        t = g.term
+        if t.kind == "switch" and c.dominates(g.idx, bb) and g.idx != bb:
+            for o in origins(b, d, t.discr, through_ops=True):
+                if o.kind == 'call' and (o.node.best_callee() or "").endswith(("ExecutionResult::is_return_or_exit", "ExecutionResult::is_normal_flow",
+                                                                                 "ExecutionControlFlow::is_return_or_exit", "ExecutionControlFlow::is_normal_flow")):
+                    flow_test = True
+                if o.kind == 'op' and o.node.kind == 'discr' and "ExecutionControlFlow" in (o.node.enum or ""):
+                    flow_test = True
+    if flow_test:
+        chk.ok("R2.6", "bang-skips-return-exit", "inversion is control dependent on bang and on the result's control flow", function=PIPE_EXEC)
+    else:
+        chk.fail("R2.6", PIPE_EXEC, "bang-inverts-return-status",
+                 "`!` inverts the exit code without looking at the result's control flow: `f() { ! return 3; }; f` leaves 0 instead of 3, `( ! exit 3 )` gives 0")
+
+
+def loop_flow_origin_rule(prog, chk):
+    """R2.4: loop control flow is raised only inside a loop. The `break` / `continue` builtins construct BreakLoop / ContinueLoop; that
+    construction must be control dependent on a test of the execution context (is a loop active?), not only of their own argument.
+    Today there is no such test: a `break` outside any loop travels up to the program and silently ends the script."""
+    chk.rule("R2.4", "break / continue raise BreakLoop / ContinueLoop only under a test that a loop is active")
+    n = 0
+    for b in prog.all_bodies({"brush_builtins"}):
+        fn = owner(b.name)
+        if not (fn.startswith("<brush_builtins::break_::BreakCommand") or fn.startswith("<brush_builtins::continue_::ContinueCommand")):
+            continue
+        c = cfg_of(b)
+        d = defs_of(b)
+        for bl in b.blocks:
+            if bl.cleanup or bl.idx not in c.reach:
+                continue
+            for st in bl.stmts:
+                if st.kind == 'a' and st.rv.kind == 'agg' and st.rv.variant in ("BreakLoop", "ContinueLoop") and "ExecutionControlFlow" in (st.rv.adt or ""):
+                    n += 1
+                    guarded = False
+                    for g in b.blocks:
+                        t = g.term
+                        if t.kind == "switch" and g.idx != bl.idx and c.dominates(g.idx, bl.idx):
+                            for o in origins(b, d, t.discr, through_ops=True):
+                                nm = b.local_name(o.node) if o.kind == 'arg' else None
+                                if (o.kind == 'arg' and nm not in ("self", None) and "which_loop" not in o.field_path()) or \
+                                        (o.kind == 'call' and any(x in (o.node.best_callee() or "") for x in ("loop", "Shell::", "ExecutionContext", "ExecutionParameters"))):
+                                    guarded = True
+                    what = st.rv.variant
+                    if guarded:
+                        chk.ok("R2.4", "loop-flow-guarded:" + what, "%s is raised only under a test of the execution context" % what, function=fn)
+                    else:
+                        chk.fail("R2.4", fn, "loop-flow-raised-outside-loops:" + what,
+                                 "%s raises %s whenever its argument is valid, whether or not a loop is active: at top level (or in a function / subshell "
+                                 "body outside any loop) the sequence executors stop at the non-normal flow and the rest of the script is skipped silently — "
+                                 "`break; echo after` prints nothing (bash: diagnostic, status 0, continues)" % (fn, what))
+    chk.floor("R2.4", "BreakLoop/ContinueLoop constructions in the break/continue builtins", n, 2)
+
+
+CASE_EXEC = "<brush_parser::ast::CaseClauseCommand as brush_core::interp::Execute>::execute"
+
+
+def case_status_rule(prog, chk):
+    """R2.7: the status of `case` is that of the last item run — 0 for an item without commands. Every path through a *selected*
+    item (from the loop head to the item's post-action dispatch) assigns the result that is finally returned; an item that leaves
+    it untouched would keep the status of an earlier `;&` / `;;&` item."""
+    chk.rule("R2.7", "case: every path from the item loop's head to the post-action dispatch (;; ;& ;;&) assigns the returned result "
+                     "(an item without commands yields success, it does not keep an earlier item's status)")
+    b = prog.impl_body(CASE_EXEC)
+    if not chk.anchor("R2.7", CASE_EXEC, b):
+        return
+    c = cfg_of(b)
+    d = defs_of(b)
+    sws = enum_switches(prog, b, "brush_parser::ast::CaseItemPostAction")
+    if not sws:
+        chk.fail("R2.7", CASE_EXEC, "post-action-switch-missing", "no dispatch on CaseItemPostAction found")
+        return
+    sbb = sws[0][0]
+    loops = c.source_loops()
+    heads = [h for h, blks in loops.items() if sbb in blks]
+    if not heads:
+        chk.fail("R2.7", CASE_EXEC, "item-loop-missing", "the post-action dispatch is not inside a loop over the case items")
+        return
+    head = max(heads, key=lambda h: len(loops[h]))     # outermost loop containing the dispatch = loop over items
+    # the local that is returned
+    res = [l for l in range(len(b.local_names)) if b.local_names[l] == "result"]
+    res = [l for l in res if "ExecutionResult" in b.local_ty(l)]
+    if not res:
+        chk.fail("R2.7", CASE_EXEC, "result-local-missing", "no ExecutionResult local named `result`")
+        return
+    defs_blocks = set()
+    for l in res:
+        for kind, bb, idx, node in d.of(l):
+            if bb in loops[head]:
+                defs_blocks.add(bb)
+    chk.floor("R2.7", "assignments of the returned result inside the item loop", len(defs_blocks), 1)
+    p = c.path(head, [sbb], avoid=defs_blocks, after=True)
+    if p is None:
+        chk.ok("R2.7", "case-item-sets-status", "every path from the loop head to the post-action dispatch assigns `result` (%d assigning blocks)" % len(defs_blocks), function=CASE_EXEC)
+    else:
+        chk.fail("R2.7", CASE_EXEC, "case-item-keeps-earlier-status",
+                 "a selected case item can reach its post-action dispatch without assigning the result (path %s): an item with no commands keeps the status of the "
+                 "item that fell through into it — `case a in a) false ;& b) ;; esac; echo $?` prints 1 (bash 0)" % (p[:8],))
